@@ -85,7 +85,12 @@ def toDesc (b : BP) : J :=
     , ("marker1_rel", .arr (b.segs.map (fun s => J.ofMark s.m1)))
     , ("marker2_rel", .arr (b.segs.map (fun s => J.ofMark s.m2))) ])
 
-def hasSub (s sub : String) : Bool := (s.splitOn sub).length > 1
+/-- Python `sub in s` on character lists -/
+def isInfixL (sub : List Char) : List Char → Bool
+  | [] => sub.isEmpty
+  | c :: cs => sub.isPrefixOf (c :: cs) || isInfixL sub cs
+
+def hasSub (s sub : String) : Bool := isInfixL sub.toList s.toList
 
 /-- assign `_segmark1/_segmark2` wholesale from the description's lists -/
 def setSegMarks (segs : List Seg) (l1 l2 : List Mark) : List Seg :=
@@ -93,49 +98,63 @@ def setSegMarks (segs : List Seg) (l1 l2 : List Mark) : List Seg :=
   | s :: ss, a :: as, b :: bs => { s with m1 := a, m2 := b } :: setSegMarks ss as bs
   | ss, _, _ => ss
 
+/-- the one-segment blueprint `blueprint_from_description` builds for the `i`-th segment record -/
+def segOfDesc (i : Nat) (sd : J) : Except Err BP :=
+  match sd.get? "function" with
+  | some (.str fnName) =>
+    match sd.get? "arguments" with
+    | some (.obj args) =>
+      if fnName = "waituntil" then
+        match args.head? with
+        | some (_, .arr (x :: _)) =>
+          (({} : BP).insertSegment i Fn.waitSpecial [J.toVal x] .none .none).toExcept
+        | _ => .error .index
+      else
+        match builtinFns.find? (fun f => f.qual = fnName) with
+        | none => .error .key
+        | some fn =>
+          match sd.get? "name" with
+          | some (.str nm) =>
+            match sd.get? "durations" with
+            | some d =>
+              (({} : BP).insertSegment i fn (args.map (fun (_, v) => J.toVal v)) (J.toVal d) (.str (basename nm))).toExcept
+            | none => .error .key
+          | _ => .error .key
+    | _ => .error .key
+  | _ => .error .key
+
+/-- the loop `bp_sum = bp_sum + bp_seg` over the segment records -/
+def sumSegs : List J → Nat → BP → Except Err BP
+  | [], _, sum => .ok sum
+  | sd :: rest, i, sum =>
+    match segOfDesc i sd with
+    | .error e => .error e
+    | .ok seg => sumSegs rest (i + 1) (sum.add seg)
+
+/-- a marker list of the description -/
+def marksOf (j : J) (k : String) : Except Err (List Mark) :=
+  match j.get? k with
+  | some (.arr l) =>
+    match l.mapM J.toMark? with
+    | some ms => .ok ms
+    | none => .error .type
+  | _ => .error .key
+
 /-- `BluePrint.blueprint_from_description` -/
-def ofDesc (j : J) : Except Err BP := do
-  let fields ← match j with
-    | .obj l => pure l
-    | _ => throw Err.attr
-  let segFields := fields.filter (fun (k, _) => hasSub k "segment")
-  let mut sum : BP := {}
-  let mut i : Nat := 0
-  for (_, sd) in segFields do
-    let fnName ← match sd.get? "function" with | some (.str f) => pure f | _ => throw Err.key
-    let args ← match sd.get? "arguments" with | some (.obj l) => pure l | _ => throw Err.key
-    let mut seg : BP := {}
-    if fnName = "waituntil" then
-      let t ← match args.head? with
-        | some (_, .arr (x :: _)) => pure (J.toVal x)
-        | _ => throw Err.index
-      let r := seg.insertSegment i Fn.waitSpecial [t] .none .none
-      match r.err with
-      | some er => throw er
-      | none => seg := r.st
-    else
-      let fn ← match builtinFns.find? (fun f => f.qual = fnName) with
-        | some f => pure f
-        | none => throw Err.key
-      let nm ← match sd.get? "name" with | some (.str s) => pure s | _ => throw Err.key
-      let dur ← match sd.get? "durations" with | some d => pure (J.toVal d) | none => throw Err.key
-      let r := seg.insertSegment i fn (args.map (fun (_, v) => J.toVal v)) dur (.str (basename nm))
-      match r.err with
-      | some er => throw er
-      | none => seg := r.st
-    sum := sum.add seg
-    i := i + 1
-  let marks (k : String) : Except Err (List Mark) :=
-    match j.get? k with
-    | some (.arr l) => match l.mapM J.toMark? with
-      | some ms => pure ms
-      | none => throw Err.type
-    | _ => throw Err.key
-  let m1 ← marks "marker1_abs"
-  let m2 ← marks "marker2_abs"
-  let r1 ← marks "marker1_rel"
-  let r2 ← marks "marker2_rel"
-  pure { sum with marker1 := m1, marker2 := m2, segs := setSegMarks sum.segs r1 r2 }
+def ofDesc (j : J) : Except Err BP :=
+  match j with
+  | .obj fields =>
+    match sumSegs ((fields.filter (fun kv => hasSub kv.1 "segment")).map (·.2)) 0 {} with
+    | .error e => .error e
+    | .ok sum =>
+      match marksOf j "marker1_abs", marksOf j "marker2_abs", marksOf j "marker1_rel", marksOf j "marker2_rel" with
+      | .ok m1, .ok m2, .ok r1, .ok r2 =>
+        .ok { sum with marker1 := m1, marker2 := m2, segs := setSegMarks sum.segs r1 r2 }
+      | .error e, _, _, _ => .error e
+      | _, .error e, _, _ => .error e
+      | _, _, .error e, _ => .error e
+      | _, _, _, .error e => .error e
+  | _ => .error .attr
 
 end BP
 
